@@ -110,9 +110,14 @@ def _last_open_call(trace_path):
             if line.startswith(b'{"ev":"Call"'):
                 m = re.match(rb'\{"ev":"Call","case":(-?\d+)', line)
                 last_call = int(m.group(1))
+            elif line.startswith(b'{"ev":"Stage"'):
+                continue
             elif line.startswith(b'{"ev":'):
                 last_call = None
-                done += 1
+                m = re.match(rb'\{"ev":"\w+","case":(-?\d+)', line)
+                # in-process repetitions logged by the driver (ids above 10^7) are not cases of the case file
+                if m and int(m.group(1)) < 10000000:
+                    done += 1
     return last_call, done
 
 
